@@ -10,6 +10,7 @@ from . import rules_purity as P
 from . import rules_purity_pe as Pp
 from . import rules_score_pe as Sp
 from . import rules_gf_pe as Gp
+from . import rules_io_pe as Ip
 from . import rules_term as Tm
 from . import witness, fixture
 from .core import soft_if
@@ -421,14 +422,22 @@ def C18(ctx):
 
 def C19(ctx):
     f = ctx.facts("image")
-    S.c19_fn(ctx, f, "convert::svg::SvgBuilder::to_file", 2)
-    S.c19_r3(ctx, f)
-    I.c19_image(ctx, f)
-    I.c13_r2(ctx, f)
+    d_io = Ip.c19_r4(ctx, f)
+    sctx = soft_if(ctx, d_io, "C19.R4")
+    S.c19_fn(sctx, f, "convert::svg::SvgBuilder::to_file", 2)
+    S.c19_r3(sctx, f)
+    I.c19_image(sctx, f)
+    I.c13_r2(sctx, f)
     witness.rule(ctx, "C19.W1", "both to_file error types convert into ConvertError with `?`", ["w_c19_question_mark"])
     return dict(
         level="other",
-        explanation="Every fallible I/O call's result is consumed only by map_err / `?` / return (never unwrap, ok(), is_ok, drop or "
+        explanation="By partial evaluation with std::fs / std::io modelled (C19.R4): SvgBuilder::to_file and ImageBuilder::to_file, run on "
+                    "the builders' default values, return Ok with exactly one truncating file at the caller's path holding the "
+                    "complete output of to_str (the PNG encoding of to_pixmap) once and in order and nothing left in a BufWriter when "
+                    "no operation fails, and return Err when the k-th fallible operation (create/open, write, write_all, write_fmt, "
+                    "flush, sync, into_inner, save_png, encode_png) fails, for every k; Write::write is modelled as a partial write. "
+                    "Shape rules (all paths, not only the default builder): "
+                    "every fallible I/O call's result is consumed only by map_err / `?` / return (never unwrap, ok(), is_ok, drop or "
                     "unused); Ok is dominated by the success edge of every fallible step; the bytes written are as_bytes() of the "
                     "unmodified to_str(self, qr) through write_all to the file created at the caller's path; PNG output encodes "
                     "the unmodified to_pixmap result; error conversions keep their payload and cannot panic.",
